@@ -258,11 +258,21 @@ func runCase(cs schedCase) (out schedOut) {
 					trace(a, fmt.Sprintf("write %d", b))
 				}
 			}
-		case "R":
+		case "R", "A":
 			switch st % 5 {
 			case 0:
 				at, ok = ctl.advance(a, []string{"cloneReaders.afterSnapshotPtr"}, func() {
 					ctl.register(a)
+					if a.spec.K == "A" {
+						// aggregate reader: count(v) of series 1 through the pre-aggregation path; the "result" is [count]
+						counts, err := runCount(sh, mst, 1, (1<<20)-1)
+						if err != nil {
+							a.err = err
+						}
+						a.results = append(a.results, []int64{counts[1]})
+						a.ev <- event{""}
+						return
+					}
 					res := runQuery(sh, 1, (1<<20)-1, true)
 					if res.err != nil {
 						a.err = res.err
@@ -403,7 +413,7 @@ func runCase(cs schedCase) (out schedOut) {
 	ctl.cur = nil
 	ctl.mu.Unlock()
 	for i, a := range actors {
-		if a.spec.K == "R" {
+		if a.spec.K == "R" || a.spec.K == "A" {
 			out.Results[fmt.Sprint(i)] = a.results
 			if a.results == nil {
 				out.Results[fmt.Sprint(i)] = [][]int64{}
